@@ -42,7 +42,7 @@ ASSUMPTIONS = [
     "nothing; return-value deviations are recorded as M10 notes, not as verdicts",
 ]
 
-BFS_PLANS = ["all", "adds", "sizes", "sizes2", "names", "names2", "foreign", "foreign2", "templates", "templates2", "tstrings", "tcells", "twins", "setters", "setters3"]
+BFS_PLANS = ["all", "adds", "sizes", "sizes2", "names", "names2", "foreign", "foreign2", "templates", "templates2", "tstrings", "tcells", "twins", "setters", "setters3", "files", "bulk"]
 LAZY_OFF = 500000000   # case ids of the second execution variant
 
 
